@@ -29,7 +29,8 @@ Fixpoint only_refs (l : list comp) : list str :=
   match l with [] => [] | CMember _ :: r => only_refs r | CComponentsOf c :: r => c :: only_refs r end.
 
 Definition assemble (root : list comp) (marker : bool) (adds : list comp) : seq :=
-  mkseq (only_members (root ++ adds)) (only_refs (root ++ adds)) (if marker then Some (length root) else None).
+  (* the index of the first addition counts the members of the root; COMPONENTS OF entries are not members *)
+  mkseq (only_members (root ++ adds)) (only_refs (root ++ adds)) (if marker then Some (length (only_members root)) else None).
 
 (* ---- strings *)
 Definition s_option_l : str := [79;112;116;105;111;110;60]%N.            (* Option< *)
